@@ -30,7 +30,10 @@ def r1_header_map(ctx):
         e = mir.strip(e)
         actual = dict(e[3])
         where = body.where(bi, si)
-        prev_ok = {"Option::unwrap_or_default(Option::map(core::num::<impl u64>::checked_sub($1.0.height.0, 1), closure[inner=$1.0]))"}
+        # `previous` = hash of the header stored at height − 1, or the default hash at height 0 — spelled with combinators or with a match
+        PREV_MATCH = "phi(<tmelcrypt::HashVal as std::default::Default>::default() | Header::hash(Option::unwrap(SmtMapping::get($1.0.history, try(core::num::<impl u64>::checked_sub($1.0.height.0, 1))))))"
+        prev_ok = {"Option::unwrap_or_default(Option::map(core::num::<impl u64>::checked_sub($1.0.height.0, 1), closure[inner=$1.0]))", PREV_MATCH}
+        prev_inline = sig(q.novers(dict(mir.strip(e)[3]).get("previous", ("unknown", "")))) == PREV_MATCH
         table = {
             "network": "$1.0.network", "height": "$1.0.height",
             "fee_pool": "$1.0.fee_pool", "fee_multiplier": "$1.0.fee_multiplier", "dosc_speed": "$1.0.dosc_speed",
@@ -48,7 +51,8 @@ def r1_header_map(ctx):
         q.check_table(r, "field", actual, table, where, prog=ctx.prog)
     # the closure computing `previous`
     cl = ctx.prog.closures_of(body)
-    r.floor("previous-closure", len(cl), 1)
+    if not (aggs and prev_inline):
+        r.floor("previous-closure", len(cl), 1)
     for c in cl:
         ctx.analysed(c)
         rr = q.ret_assignments(c)
@@ -174,11 +178,19 @@ def r4_key_agreement(ctx):
 
 def r5_tx_commitment(ctx):
     r = ctx.rule("R5", "transactions_root_hash: both branches range over the whole ordered set; dense tree built from the sorted vector; pre-908 key = hash_nosigs(tx)")
+    ADAPT = {}
     for nm in ("melstf::state::UnsealedState::transactions_root_hash", "melstf::state::UnsealedState::tip908_transactions"):
         b = ctx.body(nm, r)
         loops = q.loop_with_source(b, lambda s: True)
         srcs = [sig(l[3]) for l in loops]
         short = nm.split("::")[-1]
+        adapters = [(bi, e) for bi, e in q.all_call_exprs(b) if e[0] == "call" and e[1].split("::")[-1] in ("for_each", "map") and len(e[2]) == 2
+                    and sig(mir.strip(e[2][0])) == "TransactionSet::iter($1.transactions)" and mir.strip(e[2][1])[0] == "closure"]
+        if not srcs and len(adapters) == 1:
+            # the same traversal spelled with an adapter over the whole set (`.iter().for_each(..)` / `.iter().map(..).collect()`): every element is visited, no early exit
+            r.ok(short + "/loop", "%s over self.transactions.iter()" % adapters[0][1][1].split("::")[-1], b.where(adapters[0][0]))
+            ADAPT[short] = adapters[0]
+            continue
         r.check(srcs == ["TransactionSet::iter($1.transactions)"], short + "/loop", "loops over self.transactions.iter()",
                 "loops over %s, expected exactly one loop over the whole of self.transactions" % srcs, "%s:%s" % (b.file, b.line))
         for (h, blocks, latches, src) in loops:
@@ -189,8 +201,15 @@ def r5_tx_commitment(ctx):
     # pre-908 insert
     b = ctx.prog.body("melstf::state::UnsealedState::transactions_root_hash")
     ins = q.calls_to(b, "SmtMapping::insert")
-    r.check(len(ins) == 1, "pre908/insert", "one insert per element", "%d inserts" % len(ins))
-    for bi, t in ins:
+    if not ins and "transactions_root_hash" in ADAPT:
+        c = ctx.prog.body(mir.strip(ADAPT["transactions_root_hash"][1][2][1])[1])
+        cins = [c.rec_call(t, bi) for bi, t in q.calls_to(c, "SmtMapping::insert")]
+        r.check(len(cins) == 1 and sig(cins[0][2][1]) == "Transaction::hash_nosigs($2)" and sig(cins[0][2][2]) == "$2", "pre908/kv", "key hash_nosigs(tx) → tx (in the for_each closure)",
+                "the for_each closure inserts %s" % [sig(x)[:100] for x in cins], "%s:%s" % (c.file, c.line))
+        ins = None
+    if ins is not None:
+        r.check(len(ins) == 1, "pre908/insert", "one insert per element", "%d inserts" % len(ins))
+    for bi, t in (ins or []):
         e = b.rec_call(t, bi)
         el = "elem(TransactionSet::iter($1.transactions))"
         r.check(sig(e[2][1]) == "Transaction::hash_nosigs(%s)" % el and sig(e[2][2]) == el, "pre908/kv", "key hash_nosigs(tx) → tx",
@@ -210,6 +229,19 @@ def r5_tx_commitment(ctx):
         sorted_before = [sb for sb, st in sorts if b.dominates(sb, bi) and q.novers(b.rec_call(st, sb)[2][0]) == q.novers(v)]
         r.check(bool(sorted_before), "tip908/sorted", "the vector is sorted before the tree is built", "DenseMerkleTree::new(%s) is not dominated by a sort of that vector" % sig(v), b.where(bi))
     pushes = q.calls_to(b, "Vec::push")
+    if not pushes and "tip908_transactions" in ADAPT and ADAPT["tip908_transactions"][1][1].split("::")[-1] == "map":
+        # `.iter().map(|tx| leaf(tx)).collect()`: the leaf is what the closure returns; it must be assembled from hash_nosigs(tx) then hash(stdcode(tx))
+        c = ctx.prog.body(mir.strip(ADAPT["tip908_transactions"][1][2][1])[1])
+        hs = [sig(n.rec_call(t, bi)) for n in ctx.prog.all_nested(c) for bi, t in n.calls() if not t["exp"]]
+        n_ = [i for i, x in enumerate(hs) if x == "Transaction::hash_nosigs($2)"]
+        f_ = [i for i, x in enumerate(hs) if x in ("tmelcrypt::hash_single(StdcodeSerializeExt::stdcode($2))", "tmelcrypt::hash_single(StdcodeSerializeExt::stdcode(^tx))")]
+        if n_ and f_:
+            r.undecided("tip908/leaf", "the leaf is built in a map closure from hash_nosigs(tx) and hash(stdcode(tx)); the order of concatenation is not decided for this spelling", "%s:%s" % (c.file, c.line))
+        else:
+            r.violation("tip908/leaf", "the map closure building the leaves does not use both hash_nosigs(tx) and hash(stdcode(tx)) (calls: %s)" % hs[:8], "%s:%s" % (c.file, c.line))
+        pushes = None
+    if pushes is None:
+        return
     r.check(len(pushes) >= 1, "tip908/push", "elements are pushed", "nothing is pushed")
     TX = "elem(TransactionSet::iter($1.transactions))"
     NOSIGS, FULL = "Transaction::hash_nosigs(%s)" % TX, "tmelcrypt::hash_single(StdcodeSerializeExt::stdcode(%s))" % TX
